@@ -363,6 +363,10 @@ calls = [
     ("removeUsers", callers(tower_files, r"\.batch_remove_users\(")),
     ("storeTracker", callers(tower_files, r"\.store_tracker\(")),
     ("updateTrackerStatus", callers(tower_files, r"\.update_tracker_status\(")),
+    # the blocks main.rs hands to the two look-ups at start-up (the harness boots the components itself and passes the
+    # very same slices: ./check hands it the watcher's)
+    ("watcherBoot", callers(tower_files, r"\bWatcher::new\(", r"\s*[^,]*,\s*[^,]*,\s*([^,]*?)\s*,")),
+    ("responderBoot", callers(tower_files, r"\bResponder::new\(", r"\s*([^,]*?)\s*,")),
 ]
 cpath = os.path.join(gen_dir, "Calls.lean")
 cbase = os.path.join(base_dir, "Calls.lean.txt")
